@@ -66,6 +66,8 @@ class Gen:
             n = s.rng.choice([0, 1, 1, 2, 2, 3, s.rng.randint(0, s.pol.big)])
         elif a == 'big':
             n = s.rng.randint(3, s.pol.big)
+        elif a == 'manysmall':
+            n = 1 if s.depth == 1 else s.rng.choice([0, 1])
         elif a in ('lim255', 'lim256'):
             # the top of a u8 count and the first length beyond it (outermost arrays only)
             n = int(a[3:]) if s.depth == 1 else s.rng.choice([0, 1, 2])
@@ -208,6 +210,12 @@ class Gen:
                 return
             if name in inf.count_of:
                 w = s.cdc.wire_int(m)[0]
+                if s.pol.arr == 'manysmall' and s.forced(p + '#len') is None and s.forced(p) is None:
+                    # thousands of minimal elements where an element may be 1..9 bytes (PackedGuid) and the count has 32 bits: the encoding is
+                    # a few KiB, but count x *largest* element size is beyond what any guard may assume
+                    elems = [d['ty'] for d in walk_defs(c.raw['members']) if d['array'] == name]
+                    vals[name] = 7300 if w == 4 and 'PackedGuid' in elems else (1 if s.depth == 1 else s.rng.choice([0, 1]))
+                    return
                 vals[name] = s.arr_len(p, (1 << 8 * w) - 1)
                 return
             vals[name] = s._scalar(c, m, p)
@@ -484,6 +492,20 @@ EXTREME_POLICIES = [
 ]
 
 
+def _reaches_u32_counted_packed_guids(cdc, c, depth=0):
+    defs = list(walk_defs(c.raw['members']))
+    byname = {d['name']: d for d in defs}
+    for d in defs:
+        a = d['array']
+        if d['ty'] == 'PackedGuid' and a in byname and cdc.wire_int(byname[a])[0] == 4:
+            return True
+        if depth < 3 and not model.is_builtin(d['ty']):
+            o = cdc.env.lookup(d['ty'])
+            if o is not None and o.kind == 'struct' and _reaches_u32_counted_packed_guids(cdc, o, depth + 1):
+                return True
+    return False
+
+
 def vectors_for(cdc, c, seed, k_random, with_choices=True, max_choice=400, extremes=False):
     """Yield (class, vals) canonical values for container c."""
     base = random.Random(f'{seed}:{cdc.env.key}:{c.name}')
@@ -504,5 +526,9 @@ def vectors_for(cdc, c, seed, k_random, with_choices=True, max_choice=400, extre
         if k_random >= 100:   # thorough tiers
             for j, f in enumerate(pair_plans(plans, base)):
                 yield f'pair{j}', Gen(cdc, random.Random(base.getrandbits(64)), force=f).container(c)
+    if with_choices and _reaches_u32_counted_packed_guids(cdc, c):
+        pol = Policy(arr='manysmall', string='empty', num='min', opt=False, flag='none')
+        for j, f in enumerate(plans):
+            yield f'choice{j}manysmall', Gen(cdc, random.Random(base.getrandbits(64)), force=f, policy=pol, budget=20000).container(c)
     for j in range(k_random):
         yield f'rand{j}', Gen(cdc, random.Random(base.getrandbits(64))).container(c)
